@@ -1,10 +1,13 @@
 #!/bin/sh
-# tools/runall.sh [tier] [seed]  -- runs every claimed check, prints one line each
+# tools/runall.sh [tier] [seed]  -- runs every claimed check, prints one line each; full output under logs/<tier>_<seed>/
 tier=${1:-quick}; seed=${2:-0}
 cd "$(dirname "$0")/.."
+logdir=${VF_LOG_DIR:-$PWD/logs}/${tier}_${seed}
+mkdir -p "$logdir"
 for id in C01 C02 C03 C04 C05 C06 C07 C08 C09 C10 C11 C12 C13 C14 C15 C16 C17 C18 C19 C20; do
   s=$(date +%s)
-  out=$(VERIF_SEED=$seed ./check $id --tier $tier 2>&1); rc=$?
+  VERIF_SEED=$seed ./check $id --tier $tier > "$logdir/$id.log" 2>&1; rc=$?
   e=$(date +%s)
-  echo "$id rc=$rc $((e-s))s $(echo "$out" | grep -E 'KNOWN-FINDING|VIOLATION|INCONCLUSIVE' | cut -c1-150 | head -3 | tr '\n' '|')"
+  cp "${VF_EVIDENCE_DIR:-evidence}/$id.json" "$logdir/$id.evidence.json" 2>/dev/null
+  echo "$id rc=$rc $((e-s))s $(grep -E 'KNOWN-FINDING|VIOLATION|INCONCLUSIVE|^[A-Za-z]*Error' "$logdir/$id.log" | cut -c1-150 | head -4 | tr '\n' '|')"
 done
